@@ -10,9 +10,11 @@
    sets are the propagation of their records' direct facts), the information content, the record
    maps, the version and the default sets: C07_builder_roundtrip_complete states all of it for every
    ontology a Builder script produces, with no remaining hypothesis but "the format can carry it".
-   Not covered by a theorem: sources loaded from JAX text or produced by sub_ontology (executed). *)
+   The same statement is proved for ANY source with the structural statements (C07_roundtrip_any_source),
+   for every ontology loaded from JAX text files with a closed hp.obo (C07_jax_roundtrip_complete) and
+   for every sub-ontology of an ontology with exact caches (C07_sub_ontology_roundtrip_complete). *)
 From Coq Require Import Permutation.
-From HpoV Require Import Gen.Consts Model.Base Model.Group Model.Onto Model.Binary Proofs.GroupP Proofs.BinaryP Proofs.CodecP Proofs.SectionP Proofs.RoundTripP Proofs.ClosureP Proofs.LinkP Proofs.AcyclicP Proofs.AnnotP Proofs.BuilderAnnotP Proofs.ReloadP Proofs.RoundTripAllP Model.Script.
+From HpoV Require Import Gen.Consts Model.Base Model.Group Model.Onto Model.Binary Proofs.GroupP Proofs.BinaryP Proofs.CodecP Proofs.SectionP Proofs.RoundTripP Proofs.ClosureP Proofs.LinkP Proofs.AcyclicP Proofs.AnnotP Proofs.BuilderAnnotP Proofs.ReloadP Proofs.RoundTripAllP Proofs.RoundTripSrcP Proofs.DistP Proofs.JaxP Model.Script Model.Text Model.SubOnt.
 
 Theorem C07_u32_roundtrip : forall n rest, n < 4294967296 -> u32_at (to_be32 n ++ rest) 0 = Ok n.
 Proof. exact u32_at_to_be32. Qed.
@@ -140,6 +142,44 @@ Theorem C07_builder_defaults_fixed : forall icf s codes o, run_script icf s = Ok
   (let '(_, _, _, _, kindb) := s in kindb =? 0) = false -> b_build_with_defaults o = Ok o.
 Proof. exact builder_defaults_fixed. Qed.
 
+(* the round trip for ANY source: exact caches with children = parents^-1 (src_ok), acyclic,
+   annotation sets = inherited direct facts (ann_ok), IC = calculate(N, n) (ic_ok), distinct record ids *)
+Theorem C07_roundtrip_any_source : forall icf order o o'',
+  src_ok o -> acyclic (o_arena o) -> ann_ok o -> ic_ok icf o -> (forall k, NoDup (map a_id (o_records k o))) ->
+  file_ok order o -> (forall l, Permutation (order l) l) ->
+  decode icf (encode_with order o) = Ok o'' ->
+  Forall2 term_kept (ar_terms (o_arena o)) (ar_terms (o_arena o'')) /\
+  Forall2 (fun t t'' => forall k, t_annots k t'' = t_annots k t) (ar_terms (o_arena o)) (ar_terms (o_arena o'')) /\
+  Forall2 (fun t t'' => t_ic t'' = t_ic t) (ar_terms (o_arena o)) (ar_terms (o_arena o'')) /\
+  (forall k, o_records k o'' = map (raw_record k) (order (o_records k o))) /\ o_version o'' = o_version o /\
+  (b_build_with_defaults o = Ok o -> o_cat o'' = o_cat o /\ o_mod o'' = o_mod o).
+Proof. exact roundtrip_complete. Qed.
+
+(* ... every ontology loaded by from_standard / from_standard_transitive from files whose hp.obo
+   has a stanza for every is_a target is such a source (defaults included) *)
+Theorem C07_jax_roundtrip_complete : forall icf tr obo genes hpoa o order o'',
+  obo_closed obo -> load_jax icf tr obo genes hpoa = Ok o ->
+  file_ok order o -> (forall l, Permutation (order l) l) ->
+  decode icf (encode_with order o) = Ok o'' ->
+  Forall2 term_kept (ar_terms (o_arena o)) (ar_terms (o_arena o'')) /\
+  Forall2 (fun t t'' => forall k, t_annots k t'' = t_annots k t) (ar_terms (o_arena o)) (ar_terms (o_arena o'')) /\
+  Forall2 (fun t t'' => t_ic t'' = t_ic t) (ar_terms (o_arena o)) (ar_terms (o_arena o'')) /\
+  (forall k, o_records k o'' = map (raw_record k) (order (o_records k o))) /\ o_version o'' = o_version o /\
+  o_cat o'' = o_cat o /\ o_mod o'' = o_mod o.
+Proof. exact jax_roundtrip_complete. Qed.
+
+(* ... and so is every sub-ontology of an ontology with exact caches (sub_ontology ends in
+   build_minimal: there are no default sets to keep) *)
+Theorem C07_sub_ontology_roundtrip_complete : forall icf o root leaves o' order o'', qgood o ->
+  (forall l, In l leaves -> In l (ar_keys (o_arena o))) -> sub_ontology icf o root leaves = Ok o' ->
+  file_ok order o' -> (forall l, Permutation (order l) l) ->
+  decode icf (encode_with order o') = Ok o'' ->
+  Forall2 term_kept (ar_terms (o_arena o')) (ar_terms (o_arena o'')) /\
+  Forall2 (fun t t'' => forall k, t_annots k t'' = t_annots k t) (ar_terms (o_arena o')) (ar_terms (o_arena o'')) /\
+  Forall2 (fun t t'' => t_ic t'' = t_ic t) (ar_terms (o_arena o')) (ar_terms (o_arena o'')) /\
+  (forall k, o_records k o'' = map (raw_record k) (order (o_records k o'))) /\ o_version o'' = o_version o'.
+Proof. exact sub_roundtrip_complete. Qed.
+
 Print Assumptions C07_u32_roundtrip.
 Print Assumptions C07_name_cut_bounds.
 Print Assumptions C07_name_cut_identity.
@@ -160,3 +200,6 @@ Print Assumptions C07_reload_keeps_annotations.
 Print Assumptions C07_builder_ontologies_roundtrip.
 Print Assumptions C07_builder_roundtrip_complete.
 Print Assumptions C07_builder_defaults_fixed.
+Print Assumptions C07_roundtrip_any_source.
+Print Assumptions C07_jax_roundtrip_complete.
+Print Assumptions C07_sub_ontology_roundtrip_complete.
